@@ -26,19 +26,3 @@ package indcpacom
 //@   let dto = as(res(serde.UnmarshalCBOR(data), 0), *commitmentKeyDTO)
 //@   ensures err == nil ==> res(NewCommitmentKey(dto.EncryptionKey), 1) == nil
 
-//@ func NewCommitment
-//@   assumed
-//@   purefn
-
-//@ func NewCommitmentKey
-//@   assumed
-//@   purefn
-
-//@ func NewMessage
-//@   assumed
-//@   purefn
-
-//@ func NewWitness
-//@   assumed
-//@   purefn
-
